@@ -520,6 +520,12 @@ def eval_clauses(case, impl) -> list[tuple[str, int, str]]:
         if impl['raised'] is not None:
             continue  # tables were not read back
         p = own_parse(raw)
+        if nflights - 1 >= len(impl['flights']):
+            # `add` reported this row as imported (and the row counts grew at that moment), but at the end of the batch the flights
+            # table holds fewer records than rows imported: something later in the batch removed it
+            fails.append(('plausible_never_dropped', i, f'row reported as imported, but the batch ends with only {len(impl["flights"])} flight '
+                          f'record(s) for {nflights} imported row(s): an imported row was removed later in the batch'))
+            continue
         f = impl['flights'][nflights - 1]
         o_id = next((r[0] for r in impl['airports'] if r[1] == raw['depapt']), None)
         d_id = next((r[0] for r in impl['airports'] if r[1] == raw['arrapt']), None)
